@@ -31,7 +31,15 @@ for p in props:
       'engine': 'hypothesis-pbt',
       'level_claimed': {
           'category': 'exploration',
-          'text': getattr(m, 'LEVEL_TEXT', 'Generated-input search (Hypothesis, seeded from VERIF_SEED, sharded over 16 processes) against an explicit oracle; holds on everything generated, proves nothing beyond it.'),
+          'text': getattr(m, 'LEVEL_TEXT', None) or (
+              'Exploration by generated-input search: Hypothesis strategies (seeded from VERIF_SEED, 16 shards) and finite '
+              'enumerations produce case descriptors, the real library is run on each and an independent oracle judges the '
+              'result; the property held on everything explored and nothing is claimed beyond it. '
+              + ('Finite sub-domains enumerated completely by the arms: %s. ' % ', '.join(a.name for a in m.ARMS if a.exhaustive)
+                 if any(a.exhaustive for a in m.ARMS) else '')
+              + 'This is the right level because the property quantifies over inputs/histories for which an executable oracle '
+              'exists, while a proof would have to cover gmpy2/fpylll/scipy and heuristic lattice steps. What is explored: '
+              + m.RULE[:700]),
           'design_ref': 'DESIGN.md section 4, %s' % pid,
       },
       'level_note': getattr(m, 'LEVEL_NOTE', '; '.join(getattr(m, 'ASSUMPTIONS', []))),
